@@ -376,21 +376,10 @@ Print Assumptions values_header_top.
 
 (* ---------------------------------------------------------------- field segments: the loop body *)
 
-Definition vstep (res : list (string * pv)) (a : string) : list (string * pv) :=
-  if contains "=" a then
-    let b := split_on "=" a in
-    match b with
-    | b0 :: b1 :: _ =>
-        if Nat.ltb 0 (String.length (py_strip (remove_char "," (mass_replace b1)))) then
-          if contains "<" b1 && contains ">" b1 then vector_entries b0 b1 res
-          else upsert String.eqb (py_strip (mass_replace b0)) (PStr (py_strip (mass_replace b1))) res
-        else res
-    | _ => res
-    end
-  else res.
+(* the loop body is UmlBlob.vstep *)
 
 Lemma vfo_else : forall o, no_char ";" o && negb (no_char ":" o) = false ->
-  values_from_outside o = Some (fold_left vstep (split_on ";" o) []).
+  values_from_outside o = Some (fold_left vstep (qsplit ";" o) []).
 Proof. intros o H. unfold values_from_outside. rewrite H. reflexivity. Qed.
 
 Definition vec_step (k : string) (st : list (string * pv) * nat) (i : string) : list (string * pv) * nat :=
@@ -492,17 +481,17 @@ Lemma plain_not_dq : forall c, plain_char c = true -> Ascii.eqb c DQ = false.
 Proof. intro c. enum c. Qed.
 
 Lemma valok_cases : forall v, valok v = true ->
-  allc pqc v = true /\ keepm v = unq v /\ allc plain_char (unq v) = true /\ no_char "," (unq v) = true /\ py_strip (unq v) = unq v.
+  allc pqc v = true /\ keepm v = unq v /\ allc plain_char (unq v) = true /\ py_strip (unq v) = unq v.
 Proof.
   intros v H. unfold valok in H. apply orb_true_iff in H. destruct H as [H|H].
-  - unfold textok in H. split_and. rewrite plain_allc in *.
+  - unfold vtextok in H. split_and. rewrite plain_allc in *.
     match goal with H : String.eqb _ _ = true |- _ => apply String.eqb_eq in H end.
     assert (E : unq v = v).
     { destruct v as [|c r]; [reflexivity|]. cbn [unq].
       match goal with H : allc plain_char (String c r) = true |- _ => cbn [allc] in H; apply andb_true_iff in H; destruct H as [Hc _] end.
       rewrite (plain_not_dq _ Hc). reflexivity. }
     rewrite E. repeat split; try assumption; [cls | apply keepm_plain; assumption].
-  - unfold textok in H. split_and. rewrite plain_allc in *.
+  - unfold vtextok in H. split_and. rewrite plain_allc in *.
     repeat match goal with H : String.eqb _ _ = true |- _ => apply String.eqb_eq in H end.
     remember (unq v) as u eqn:Eu.
     match goal with H : v = dq ++ u ++ dq |- _ => rename H into Hv end.
@@ -545,11 +534,11 @@ Lemma vstep_field : forall ws k v acc, wsok ws = true -> keyok k = true -> valok
   vstep acc (repr_body SQ (ws ++ k ++ "=" ++ v)) = seg_fields (SField ws k v) acc.
 Proof.
   intros ws k v acc Hw Hk Hv. destruct (wk_facts _ _ Hw Hk) as [Hwk [Hm Hs]].
-  destruct (valok_cases _ Hv) as [Hp [Hkeep [Hu1 [Hu2 Hu3]]]].
+  destruct (valok_cases _ Hv) as [Hp [Hkeep [Hu1 Hu3]]].
   rewrite <- (sapp_assoc ws k). rewrite vstep_eq; [|ncr|ncr].
-  rewrite Hm, Hs, (repr_pq v Hp), (mass_pq v Hp), Hkeep, (remove_char_none _ _ Hu2), Hu3, ltb_len.
+  rewrite Hm, Hs, (repr_pq v Hp), (mass_pq v Hp), Hkeep, Hu3, ltb_len.
   assert (E : contains "<" v = false) by (rewrite contains1; apply negb_false_iff; nc).
-  rewrite E. cbn [andb seg_fields]. destruct (String.eqb (unq v) ""); reflexivity.
+  rewrite E. cbn [andb seg_fields]. destruct (String.eqb (py_strip (remove_char "," (unq v))) ""); reflexivity.
 Qed.
 
 Lemma vstep_lay : forall ws k w acc, wsok ws = true -> keyok k = true -> allc layc w = true ->
@@ -663,56 +652,289 @@ Proof.
     rewrite E4, (fold_pieces _ k sep c r i (acc, 0) Hm Hs Hc Hi Hr). reflexivity.
 Qed.
 
-(* ---------------------------------------------------------------- L2 *)
+(* ---------------------------------------------------------------- the string state: scan, free_of, qsplit *)
 
+Lemma scan_app : forall a b st, scan st (a ++ b) = scan (scan st a) b.
+Proof. induction a as [|x a IH]; intros b st; cbn [append scan]; [reflexivity | apply IH]. Qed.
+
+Lemma free_of_app : forall bad a b st, free_of bad st (a ++ b) = free_of bad st a && free_of bad (scan st a) b.
+Proof.
+  intros bad. induction a as [|x a IH]; intros b st; cbn [append scan free_of]; [reflexivity|].
+  rewrite IH, andb_assoc. reflexivity.
+Qed.
+
+Lemma existsb_app_b : forall (f : ascii -> bool) l1 l2, existsb f (l1 ++ l2)%list = existsb f l1 || existsb f l2.
+Proof. intros f l1 l2. induction l1 as [|x l1 IH]; [reflexivity|]. cbn [app existsb]. rewrite IH, orb_assoc. reflexivity. Qed.
+
+(* a union of forbidden characters *)
+Lemma free_of_union : forall b1 b2 s st, free_of (b1 ++ b2)%list st s = free_of b1 st s && free_of b2 st s.
+Proof.
+  intros b1 b2. induction s as [|c s IH]; intro st; [reflexivity|].
+  cbn [free_of]. rewrite IH, existsb_app_b.
+  destruct (q_in (qstep st c)), (existsb (Ascii.eqb c) b1), (existsb (Ascii.eqb c) b2),
+    (free_of b1 (qstep st c) s), (free_of b2 (qstep st c) s); reflexivity.
+Qed.
+
+Lemma qsplit_st_nonempty : forall sep s st, qsplit_st sep st s <> [].
+Proof.
+  intros sep s. induction s as [|x s IH]; intro st; cbn [qsplit_st]; [discriminate|].
+  destruct (qsplit_st sep (qstep st x) s); [discriminate|].
+  destruct (Ascii.eqb x sep && negb (q_in (qstep st x))); discriminate.
+Qed.
+
+(* a text without separator outside quoted text is one piece *)
+Lemma qsplit_st_none : forall sep s st, free_of [sep] st s = true -> qsplit_st sep st s = [s].
+Proof.
+  intros sep s. induction s as [|x s IH]; intros st H; [reflexivity|].
+  cbn [free_of existsb] in H. apply andb_true_iff in H. destruct H as [H1 H2].
+  cbn [qsplit_st]. rewrite (IH _ H2).
+  destruct (q_in (qstep st x)); [rewrite andb_false_r; reflexivity|].
+  cbn [orb] in H1. rewrite orb_false_r in H1. apply negb_true_iff in H1. rewrite H1. reflexivity.
+Qed.
+
+Lemma qsplit_none : forall sep s, free_of [sep] qst0 s = true -> qsplit sep s = [s].
+Proof. intros. apply qsplit_st_none. assumption. Qed.
+
+(* a piece up to a separator outside quoted text *)
+Lemma qsplit_st_atomic : forall sep a b st,
+  free_of [sep] st a = true -> q_in (scan st (a ++ String sep "")) = false ->
+  qsplit_st sep st (a ++ String sep b) = a :: qsplit_st sep (scan st (a ++ String sep "")) b.
+Proof.
+  intros sep a b. induction a as [|x a IH]; intros st H Hq.
+  - cbn [append scan] in *. cbn [qsplit_st]. rewrite Hq, Ascii.eqb_refl. cbn [negb andb].
+    destruct (qsplit_st sep (qstep st sep) b) eqn:E; [exfalso; exact (qsplit_st_nonempty _ _ _ E) | reflexivity].
+  - cbn [free_of existsb] in H. apply andb_true_iff in H. destruct H as [H1 H2].
+    cbn [append scan] in *. cbn [qsplit_st]. rewrite (IH _ H2 Hq).
+    destruct (q_in (qstep st x)); [rewrite andb_false_r; reflexivity|].
+    cbn [orb] in H1. rewrite orb_false_r in H1. apply negb_true_iff in H1. rewrite H1. reflexivity.
+Qed.
+
+Lemma qsplit_atomic : forall a b, free_of [";"]%char qst0 a = true -> scan qst0 (a ++ ";") = qst0 ->
+  qsplit ";" (a ++ ";" ++ b) = a :: qsplit ";" b.
+Proof.
+  intros a b H Hs. unfold qsplit. cbn [append]. rewrite qsplit_st_atomic; [rewrite Hs; reflexivity | exact H | rewrite Hs; reflexivity].
+Qed.
+
+Lemma qsplit_cat : forall (A : Type) (g : A -> string) l tail,
+  (forall x, In x l -> free_of [";"]%char qst0 (g x) = true /\ scan qst0 (g x ++ ";") = qst0) ->
+  free_of [";"]%char qst0 tail = true ->
+  qsplit ";" (cat (map (fun x => g x ++ ";") l) ++ tail) = (map g l ++ [tail])%list.
+Proof.
+  intros A g l tail. induction l as [|x l IH]; intros H Ht.
+  - cbn [map cat append app]. apply qsplit_none. exact Ht.
+  - cbn [map cat app]. rewrite !sapp_assoc. destruct (H x (or_introl eq_refl)) as [H1 H2].
+    rewrite (qsplit_atomic _ _ H1 H2), IH; [reflexivity | | exact Ht].
+    intros y Hy. apply H. right. exact Hy.
+Qed.
+
+(* the state outside / inside a quoted text, the previous character not a backslash *)
+Definition nst (i : bool) : qst := {| q_in := i; q_esc := false |}.
+
+Lemma scan_keep : forall (P : ascii -> bool) i x,
+  (forall c, P c = true -> scan (nst i) (repr_char SQ c) = nst i) -> allc P x = true -> scan (nst i) (repr_body SQ x) = nst i.
+Proof.
+  intros P i x H. induction x as [|c x IH]; intro Hx; [reflexivity|].
+  cbn [allc] in Hx. apply andb_true_iff in Hx. destruct Hx as [H1 H2].
+  cbn [repr_body]. rewrite scan_app, (H _ H1). exact (IH H2).
+Qed.
+
+Lemma free_keep : forall bad (P : ascii -> bool) i x,
+  (forall c, P c = true -> scan (nst i) (repr_char SQ c) = nst i) ->
+  (forall c, P c = true -> free_of bad (nst i) (repr_char SQ c) = true) ->
+  allc P x = true -> free_of bad (nst i) (repr_body SQ x) = true.
+Proof.
+  intros bad P i x H H'. induction x as [|c x IH]; intro Hx; [reflexivity|].
+  cbn [allc] in Hx. apply andb_true_iff in Hx. destruct Hx as [H1 H2].
+  cbn [repr_body]. rewrite free_of_app, (H _ H1), (H' _ H1). exact (IH H2).
+Qed.
+
+(* every character of a segment but the double quote *)
+Definition nqc (c : ascii) : bool := refc c || Ascii.eqb c "=".
+Definition nbr (c : ascii) : bool := negb (Ascii.eqb c "{") && negb (Ascii.eqb c "}").
+Definition nqb (c : ascii) : bool := nqc c && nbr c.
+
+Lemma nobrace_allc : forall s, nobrace s = allc nbr s.
+Proof. induction s as [|c s IH]; [reflexivity|]. cbn [nobrace allc]. rewrite IH. reflexivity. Qed.
+
+Lemma nqc_scan : forall i c, nqc c = true -> scan (nst i) (repr_char SQ c) = nst i.
+Proof. intros i c. destruct i; enum c. Qed.
+Lemma nqc_semi : forall i c, nqc c = true -> free_of [";"]%char (nst i) (repr_char SQ c) = true.
+Proof. intros i c. destruct i; enum c. Qed.
+Lemma nqb_scan : forall i c, nqb c = true -> scan (nst i) (repr_char SQ c) = nst i.
+Proof. intros i c. destruct i; enum c. Qed.
+Lemma nqb_brace : forall i c, nqb c = true -> free_of ["{"; "}"]%char (nst i) (repr_char SQ c) = true.
+Proof. intros i c. destruct i; enum c. Qed.
+Lemma plain_scan : forall i c, plain_char c = true -> scan (nst i) (repr_char SQ c) = nst i.
+Proof. intros i c. destruct i; enum c. Qed.
+Lemma plain_quoted : forall bad c, plain_char c = true -> free_of bad (nst true) (repr_char SQ c) = true.
+Proof.
+  intros bad c H. assert (E : repr_char SQ c = String c "") by (revert H; enum c).
+  rewrite E. cbn [free_of]. assert (E2 : q_in (qstep (nst true) c) = true) by (revert H; enum c).
+  rewrite E2. reflexivity.
+Qed.
+
+Lemma nq_atomic : forall x, allc nqc x = true ->
+  free_of [";"]%char qst0 (repr_body SQ x) = true /\ scan qst0 (repr_body SQ x) = qst0.
+Proof.
+  intros x H. split; [exact (free_keep _ nqc false x (nqc_scan false) (nqc_semi false) H) | exact (scan_keep nqc false x (nqc_scan false) H)].
+Qed.
+
+Lemma nqb_atomic : forall x, allc nqb x = true ->
+  free_of ["{"; "}"]%char qst0 (repr_body SQ x) = true /\ scan qst0 (repr_body SQ x) = qst0.
+Proof.
+  intros x H. split; [exact (free_keep _ nqb false x (nqb_scan false) (nqb_brace false) H) | exact (scan_keep nqb false x (nqb_scan false) H)].
+Qed.
+
+(* a quoted plain text: the quotes are its delimiters *)
+Lemma quoted_atomic : forall bad u, allc plain_char u = true -> existsb (Ascii.eqb DQ) bad = false ->
+  free_of bad qst0 (repr_body SQ (dq ++ u ++ dq)) = true /\ scan qst0 (repr_body SQ (dq ++ u ++ dq)) = qst0.
+Proof.
+  intros bad u H Hb. unfold dq. rewrite !repr_body_app. change (repr_body SQ (String DQ "")) with (String DQ "").
+  rewrite !free_of_app, !scan_app. change (scan qst0 (String DQ "")) with (nst true).
+  rewrite (scan_keep plain_char true u (plain_scan true) H).
+  rewrite (free_keep bad plain_char true u (plain_scan true) (plain_quoted bad) H).
+  cbn [free_of scan]. change (qstep qst0 DQ) with (nst true). change (qstep (nst true) DQ) with qst0.
+  cbn [q_in nst qst0 orb]. rewrite Hb. split; reflexivity.
+Qed.
+
+(* ---------------------------------------------------------------- L2: the segments *)
+
+(* the text of a segment without its final ';' *)
 Definition seg_body (s : seg) : string :=
   match s with
   | SField ws k v => ws ++ k ++ "=" ++ v
   | SRefs ws k o sep c ids => ws ++ k ++ "=" ++ o ++ refs_text sep ids ++ c
   | SChildren ws k o sep c n => ws ++ k ++ "=" ++ o ++ rep sep (n - 1) ++ c
+  | SRaw body => body
   end.
 
 Lemma seg_text_body : forall s, seg_text s = seg_body s ++ ";".
-Proof. destruct s; cbn [seg_text seg_body]; rewrite !sapp_assoc; reflexivity. Qed.
+Proof. destruct s; cbn [seg_text seg_body]; rewrite ?sapp_assoc; reflexivity. Qed.
 
 Lemma vstep_seg : forall s acc, seg_ok s = true -> vstep acc (repr_body SQ (seg_body s)) = seg_fields s acc.
 Proof.
-  intros s acc H. destruct s as [ws k v | ws k o sep c ids | ws k o sep c n]; cbn [seg_ok] in H; split_and; cbn [seg_body].
+  intros s acc H. destruct s as [ws k v | ws k o sep c ids | ws k o sep c n | body]; cbn [seg_ok] in H; split_and; cbn [seg_body].
   - apply vstep_field; assumption.
   - apply vstep_refs; assumption.
   - cbn [seg_fields]. apply vstep_lay; try assumption. rewrite layok_allc in *.
     repeat (rewrite allc_app; apply andb_true_iff; split); try assumption. apply allc_rep. assumption.
+  - reflexivity.
+Qed.
+
+Lemma refs_text_allc : forall (Q : ascii -> bool) sep ids, allc Q sep = true -> Q "<"%char = true -> Q ">"%char = true ->
+  (forall i, In i ids -> allc Q i = true) -> allc Q (refs_text sep ids) = true.
+Proof.
+  intros Q sep ids Hs Hl Hg. induction ids as [|i r IH]; intro H; [reflexivity|].
+  assert (Hi : allc Q i = true) by (apply H; left; reflexivity).
+  assert (Hr : allc Q (refs_text sep r) = true) by (apply IH; intros j Hj; apply H; right; exact Hj).
+  destruct r as [|j r].
+  - change (refs_text sep [i]) with ("<" ++ i ++ ">"). rewrite !allc_app, Hi. cbn [allc]. rewrite Hl, Hg. reflexivity.
+  - change (refs_text sep (i :: j :: r)) with ("<" ++ i ++ ">" ++ sep ++ refs_text sep (j :: r)).
+    rewrite !allc_app, Hi, Hs, Hr. cbn [allc]. rewrite Hl, Hg. reflexivity.
 Qed.
 
 Lemma refs_text_cls : forall sep ids, allc layc sep = true -> forallb idok ids = true -> allc refc (refs_text sep ids) = true.
 Proof.
-  intros sep ids Hs Hi. destruct ids as [|i r]; [reflexivity|].
-  cbn [forallb] in Hi. apply andb_true_iff in Hi. destruct Hi as [Hi Hr]. destruct (idok_parts _ Hi) as [Hi1 _].
-  assert (E : refs_text sep (i :: r) = refs_text sep (i :: r) ++ "") by (symmetry; apply sapp_nil_r).
-  rewrite E, refs_text_tail. pose proof (refs_tail_cls sep "" r Hs eq_refl Hr) as Ht. cls.
+  intros sep ids Hs Hi. apply refs_text_allc; [cls | reflexivity | reflexivity |].
+  intros i Hin. rewrite forallb_forall in Hi. destruct (idok_parts _ (Hi i Hin)) as [H1 _]. cls.
 Qed.
 
-Lemma seg_body_semi : forall s, seg_ok s = true -> no_char ";" (repr_body SQ (seg_body s)) = true.
+(* a value is a plain text or a quoted plain text *)
+Lemma valok_shape : forall v, valok v = true ->
+  (prefixb dq v = false /\ allc plain_char v = true) \/ (prefixb dq v = true /\ exists u, v = dq ++ u ++ dq /\ allc plain_char u = true).
 Proof.
-  intros s H. destruct s as [ws k v | ws k o sep c ids | ws k o sep c n]; cbn [seg_ok] in H; cbn [seg_body].
-  - apply andb_true_iff in H. destruct H as [H Hv]. apply andb_true_iff in H. destruct H as [Hw Hk].
-    destruct (wk_facts _ _ Hw Hk) as [Hwk _]. destruct (valok_cases _ Hv) as [Hp _].
-    rewrite <- (sapp_assoc ws k), (repr_body_app SQ (ws ++ k)), (repr_body_app SQ "="), !no_char_app.
-    repeat (apply andb_true_iff; split); first [ncr | reflexivity].
-  - apply andb_true_iff in H. destruct H as [H Hi]. apply andb_true_iff in H. destruct H as [H Hc].
-    apply andb_true_iff in H. destruct H as [H Hs]. apply andb_true_iff in H. destruct H as [H Ho].
-    apply andb_true_iff in H. destruct H as [Hw Hk]. rewrite layok_allc in *.
-    destruct (wk_facts _ _ Hw Hk) as [Hwk _]. pose proof (refs_text_cls sep ids Hs Hi) as Hx.
-    assert (Hy : allc valc (o ++ refs_text sep ids ++ c) = true) by cls.
-    rewrite <- (sapp_assoc ws k), (repr_body_app SQ (ws ++ k)), (repr_body_app SQ "="), !no_char_app.
-    repeat (apply andb_true_iff; split); first [ncr | reflexivity].
-  - apply andb_true_iff in H. destruct H as [H Hc].
-    apply andb_true_iff in H. destruct H as [H Hs]. apply andb_true_iff in H. destruct H as [H Ho].
-    apply andb_true_iff in H. destruct H as [Hw Hk]. rewrite layok_allc in *.
-    destruct (wk_facts _ _ Hw Hk) as [Hwk _]. pose proof (allc_rep layc sep (n - 1) Hs) as Hx.
-    assert (Hy : allc valc (o ++ rep sep (n - 1) ++ c) = true) by cls.
-    rewrite <- (sapp_assoc ws k), (repr_body_app SQ (ws ++ k)), (repr_body_app SQ "="), !no_char_app.
-    repeat (apply andb_true_iff; split); first [ncr | reflexivity].
+  intros v H. unfold valok in H. apply orb_true_iff in H. destruct H as [H|H]; unfold vtextok in H; split_and; rewrite plain_allc in *.
+  - left. split; [apply negb_true_iff|]; assumption.
+  - right. split; [assumption|]. exists (unq v). split; [|assumption].
+    match goal with H : String.eqb v _ = true |- _ => apply String.eqb_eq in H; exact H end.
+Qed.
+
+(* the key part  ws k =  and what follows it *)
+Lemma body_split : forall ws k rest, repr_body SQ (ws ++ k ++ "=" ++ rest) = repr_body SQ (ws ++ k ++ "=") ++ repr_body SQ rest.
+Proof. intros. rewrite <- repr_body_app, !sapp_assoc. reflexivity. Qed.
+
+Lemma semi_after : forall x, scan qst0 x = qst0 -> scan qst0 (x ++ ";") = qst0.
+Proof. intros x H. rewrite scan_app, H. reflexivity. Qed.
+
+Lemma raw_semi_after : forall x, q_in (scan qst0 x) = false -> scan qst0 (x ++ ";") = qst0.
+Proof. intros x H. rewrite scan_app. destruct (scan qst0 x) as [i e]. cbn [q_in] in H. subst i. destruct e; reflexivity. Qed.
+
+Lemma keyok_plain : forall k, keyok k = true -> allc plain_char k = true.
+Proof. intros k H. unfold keyok in H. split_and. rewrite <- plain_allc. assumption. Qed.
+
+(* a segment is one piece of the outside text: no ';' outside a quoted text, and after its final ';' the string state is the initial one *)
+Lemma seg_atomic : forall s, seg_ok s = true ->
+  free_of [";"]%char qst0 (repr_body SQ (seg_body s)) = true /\ scan qst0 (repr_body SQ (seg_body s) ++ ";") = qst0.
+Proof.
+  intros s H. destruct s as [ws k v | ws k o sep c ids | ws k o sep c n | body]; cbn [seg_ok] in H; cbn [seg_body].
+  - split_and. rewrite wsok_allc in *. pose proof (keyok_plain k ltac:(assumption)) as Hk. destruct (valok_shape v) as [[_ Hv]|[_ [u [Ev Hu]]]]; try assumption.
+    + assert (Hc : allc nqc (ws ++ k ++ "=" ++ v) = true) by cls.
+      destruct (nq_atomic _ Hc) as [A1 A2]. split; [exact A1 | exact (semi_after _ A2)].
+    + assert (Hc : allc nqc (ws ++ k ++ "=") = true) by cls.
+      destruct (nq_atomic _ Hc) as [A1 A2]. destruct (quoted_atomic [";"]%char u Hu eq_refl) as [A3 A4].
+      rewrite body_split, Ev, free_of_app, A1, A2, A3. split; [reflexivity|]. apply semi_after. rewrite scan_app, A2. exact A4.
+  - split_and. rewrite layok_allc, wsok_allc in *. pose proof (keyok_plain k ltac:(assumption)) as Hk.
+    pose proof (refs_text_cls sep ids) as Hx.
+    assert (Hc : allc nqc (ws ++ k ++ "=" ++ o ++ refs_text sep ids ++ c) = true) by (specialize (Hx ltac:(assumption) ltac:(assumption)); cls).
+    destruct (nq_atomic _ Hc) as [A1 A2]. split; [exact A1 | exact (semi_after _ A2)].
+  - split_and. rewrite layok_allc, wsok_allc in *. pose proof (keyok_plain k ltac:(assumption)) as Hk.
+    pose proof (allc_rep layc sep (n - 1)) as Hx.
+    assert (Hc : allc nqc (ws ++ k ++ "=" ++ o ++ rep sep (n - 1) ++ c) = true) by (specialize (Hx ltac:(assumption)); cls).
+    destruct (nq_atomic _ Hc) as [A1 A2]. split; [exact A1 | exact (semi_after _ A2)].
+  - unfold raw_ok in H. split_and. split.
+    + match goal with H : free_of _ _ _ = true |- _ => change [";"; "{"; "}"]%char with ([";"] ++ ["{"; "}"])%list%char in H; rewrite free_of_union in H end.
+      split_and. assumption.
+    + apply raw_semi_after. apply negb_true_iff. assumption.
+Qed.
+
+(* braces: a plain key, id or unquoted value may hold one (seg_ok does not exclude it), a quoted value may hold any *)
+Definition seg_nb (s : seg) : bool :=
+  match s with
+  | SField _ k v => nobrace k && (prefixb dq v || nobrace v)
+  | SRefs _ k _ _ _ ids => nobrace k && forallb nobrace ids
+  | SChildren _ k _ _ _ _ => nobrace k
+  | SRaw _ => true
+  end.
+
+Lemma seg_nobrace : forall s, seg_ok s = true -> seg_nb s = true ->
+  free_of ["{"; "}"]%char qst0 (repr_body SQ (seg_body s)) = true.
+Proof.
+  intros s H Hn. destruct s as [ws k v | ws k o sep c ids | ws k o sep c n | body]; cbn [seg_ok] in H; cbn [seg_nb] in Hn; cbn [seg_body].
+  - split_and. rewrite wsok_allc, nobrace_allc in *. pose proof (keyok_plain k ltac:(assumption)) as Hk.
+    pose proof (allc_and plain_char nbr k ltac:(assumption) ltac:(assumption)) as Hkb.
+    destruct (valok_shape v) as [[Ep Hv]|[_ [u [Ev Hu]]]]; try assumption.
+    + match goal with H : prefixb dq v || _ = true |- _ => rewrite Ep in H; cbn [orb] in H; rewrite ?nobrace_allc in H; rename H into Hvn end.
+      pose proof (allc_and plain_char nbr v Hv Hvn) as Hvb.
+      assert (Hc : allc nqb (ws ++ k ++ "=" ++ v) = true) by cls.
+      exact (proj1 (nqb_atomic _ Hc)).
+    + assert (Hc : allc nqb (ws ++ k ++ "=") = true) by cls.
+      destruct (nqb_atomic _ Hc) as [A1 A2]. destruct (quoted_atomic ["{"; "}"]%char u Hu eq_refl) as [A3 _].
+      rewrite body_split, Ev, free_of_app, A1, A2, A3. reflexivity.
+  - split_and. rewrite layok_allc, wsok_allc, nobrace_allc in *. pose proof (keyok_plain k ltac:(assumption)) as Hk.
+    pose proof (allc_and plain_char nbr k ltac:(assumption) ltac:(assumption)) as Hkb.
+    assert (Hx : allc nqb (refs_text sep ids) = true).
+    { apply refs_text_allc; [cls | reflexivity | reflexivity |]. intros i Hin.
+      match goal with H : forallb idok ids = true |- _ => rewrite forallb_forall in H; destruct (idok_parts _ (H i Hin)) as [Hi _] end.
+      match goal with H : forallb nobrace ids = true |- _ => rewrite forallb_forall in H; pose proof (H i Hin) as Hb end.
+      rewrite ?nobrace_allc in Hb. pose proof (allc_and plain_char nbr i Hi Hb) as Hib. cls. }
+    assert (Hc : allc nqb (ws ++ k ++ "=" ++ o ++ refs_text sep ids ++ c) = true) by cls.
+    exact (proj1 (nqb_atomic _ Hc)).
+  - split_and. rewrite layok_allc, wsok_allc, nobrace_allc in *. pose proof (keyok_plain k ltac:(assumption)) as Hk.
+    pose proof (allc_and plain_char nbr k ltac:(assumption) ltac:(assumption)) as Hkb.
+    assert (Hx : allc nqb (rep sep (n - 1)) = true) by (apply allc_rep; cls).
+    assert (Hc : allc nqb (ws ++ k ++ "=" ++ o ++ rep sep (n - 1) ++ c) = true) by cls.
+    exact (proj1 (nqb_atomic _ Hc)).
+  - unfold raw_ok in H. split_and.
+    match goal with H : free_of _ _ _ = true |- _ => change [";"; "{"; "}"]%char with ([";"] ++ ["{"; "}"])%list%char in H; rewrite free_of_union in H end.
+    split_and. assumption.
+Qed.
+
+(* both: the form with the three forbidden characters *)
+Lemma seg_atomic_nb : forall s, seg_ok s = true -> seg_nb s = true ->
+  free_of [";"; "{"; "}"]%char qst0 (repr_body SQ (seg_body s)) = true /\ scan qst0 (repr_body SQ (seg_body s) ++ ";") = qst0.
+Proof.
+  intros s H Hn. destruct (seg_atomic s H) as [A1 A2]. split; [|exact A2].
+  change [";"; "{"; "}"]%char with ([";"] ++ ["{"; "}"])%list%char. rewrite free_of_union, A1, (seg_nobrace s H Hn). reflexivity.
 Qed.
 
 Lemma repr_segs : forall segs tail,
@@ -731,21 +953,150 @@ Proof.
     cbn [map app fold_left]. rewrite (vstep_seg s acc H1). exact (IH tailr _ H2 Ht).
 Qed.
 
+(* the pieces SplitOutsideQuotes makes of the str(bytes) text of segments and a trailing line break / indentation *)
+Lemma qsplit_segs : forall segs tail, forallb seg_ok segs = true -> wsok tail = true ->
+  qsplit ";" (repr_body SQ (segs_text segs ++ tail)) = (map (fun s => repr_body SQ (seg_body s)) segs ++ [repr_body SQ tail])%list.
+Proof.
+  intros segs tail Hs Ht. rewrite wsok_allc in Ht. rewrite repr_segs.
+  apply (qsplit_cat seg (fun s => repr_body SQ (seg_body s))).
+  - intros s Hin. apply seg_atomic. rewrite forallb_forall in Hs. exact (Hs s Hin).
+  - assert (Hc : allc nqc tail = true) by cls. exact (proj1 (nq_atomic _ Hc)).
+Qed.
+
 Lemma values_segments : forall (segs : list seg) (tail : string),
   forallb seg_ok segs = true -> wsok tail = true ->
   values_from_outside (repr_body SQ (segs_text segs ++ tail)) = Some (segs_fields segs).
 Proof.
-  intros segs tail Hs Ht. rewrite wsok_allc in Ht. rewrite repr_segs.
-  assert (T1 : no_char ";" (repr_body SQ tail) = true) by ncr.
-  assert (T2 : no_char ":" (repr_body SQ tail) = true) by ncr.
-  assert (T3 : contains "=" (repr_body SQ tail) = false).
-  { rewrite contains1. apply negb_false_iff. ncr. }
-  rewrite vfo_else.
-  - rewrite (split_on_cat seg ";" (fun s => repr_body SQ (seg_body s))).
-    + rewrite (split_on_none _ _ T1). unfold segs_fields. f_equal. apply fold_segs; assumption.
-    + intros s Hin. apply seg_body_semi. rewrite forallb_forall in Hs. exact (Hs s Hin).
-  - destruct segs as [|s segs].
+  intros segs tail Hs Ht. rewrite vfo_else.
+  - rewrite (qsplit_segs segs tail Hs Ht). rewrite wsok_allc in Ht.
+    assert (T3 : contains "=" (repr_body SQ tail) = false).
+    { rewrite contains1. apply negb_false_iff. ncr. }
+    unfold segs_fields. f_equal. apply fold_segs; assumption.
+  - rewrite wsok_allc in Ht. rewrite repr_segs.
+    assert (T2 : no_char ":" (repr_body SQ tail) = true) by ncr.
+    destruct segs as [|s segs].
     + cbn [map cat append]. rewrite T2. apply andb_false_r.
     + cbn [map cat]. rewrite !no_char_app. change (no_char ";" ";") with false. rewrite andb_false_r. reflexivity.
 Qed.
 Print Assumptions values_segments.
+Print Assumptions seg_atomic.
+Print Assumptions seg_nobrace.
+Print Assumptions qsplit_atomic.
+
+(* ---------------------------------------------------------------- the top-level header when the name may hold colons *)
+
+Definition pqsc (c : ascii) : bool := plain_char c || Ascii.eqb c DQ || Ascii.eqb c SQ.
+
+Lemma mass_pqs : forall x, allc pqsc x = true -> mass_replace x = keepm x.
+Proof.
+  intros x H. transitivity (mass_replace (flat (fun c => String c "") x)).
+  - rewrite (flat_id pqsc _ x); [reflexivity | reflexivity | exact H].
+  - unfold mass_replace. rewrite keepm_flat, (clean_flat mass_pats pqsc).
+    + apply (flat_ext pqsc); [intro c; enum c | exact H].
+    + intro c; enum c.
+    + exact H.
+Qed.
+
+Lemma keepm_psq : forall x, allc psq x = true -> keepm x = x.
+Proof. intros x H. rewrite keepm_flat. apply (flat_id psq); [intro c; enum c | exact H]. Qed.
+
+(* deleting characters other than the separator commutes with str.split *)
+Lemma keepm_split : forall c x, dropped c = false -> map keepm (split_on c x) = split_on c (keepm x).
+Proof.
+  intros c x Hc. induction x as [|y r IH]; [reflexivity|].
+  cbn [split_on keepm]. pose proof (split_on_nonempty c r) as Hn. destruct (dropped y) eqn:D.
+  - assert (E : Ascii.eqb y c = false) by (destruct (Ascii.eqb_spec y c); [subst y; congruence | reflexivity]).
+    rewrite E, <- IH. destruct (split_on c r) as [|h t]; [congruence|]. cbn [map keepm]. rewrite D. reflexivity.
+  - cbn [split_on]. rewrite <- IH. destruct (split_on c r) as [|h t]; [congruence|]. cbn [map].
+    destruct (Ascii.eqb y c); cbn [map keepm]; [reflexivity | rewrite D; reflexivity].
+Qed.
+
+Lemma split_on_allc : forall (P : ascii -> bool) c x, allc P x = true -> forallb (allc P) (split_on c x) = true.
+Proof.
+  intros P c x. induction x as [|y r IH]; intro H; [reflexivity|].
+  cbn [allc] in H. apply andb_true_iff in H. destruct H as [H1 H2]. specialize (IH H2).
+  cbn [split_on]. destruct (split_on c r) as [|h t]; [reflexivity|].
+  cbn [forallb] in IH. apply andb_true_iff in IH. destruct IH as [I1 I2].
+  destruct (Ascii.eqb y c); cbn [forallb allc]; rewrite ?H1, I1, I2; reflexivity.
+Qed.
+
+(* the header branch on a text of plain characters and quotes: the reader's cleaning of a piece is the deletion of the quotes *)
+Lemma vfo_head_gen : forall X a parts, allc pqsc X = true -> no_char ":" X = false ->
+  split_on ":" (keepm X) = a :: parts -> 2 <= List.length parts ->
+  values_from_outside X =
+  Some [("id", PStr (py_strip a)); ("name", PStr (py_strip (nth 0 parts ""))); ("type", PStr (py_strip (nth 1 parts "")))].
+Proof.
+  intros X a parts HX Hc Hs Hl. unfold values_from_outside.
+  assert (E1 : no_char ";" X = true) by nc. rewrite E1, Hc. cbn [andb negb].
+  pose proof (split_on_allc pqsc ":" X HX) as Hp. rewrite <- (keepm_split ":" X eq_refl) in Hs.
+  destruct (split_on ":" X) as [|x0 [|x1 [|x2 rest]]]; cbn [map] in Hs; try discriminate Hs;
+    injection Hs as Ha Hparts; subst parts; cbn [List.length] in Hl; try lia.
+  subst a. cbn [forallb] in Hp. split_and.
+  cbn [nth_str nth_error bind nth]. rewrite !mass_pqs by assumption. reflexivity.
+Qed.
+
+Lemma headok_top_parts : forall id nm ty, headok_top id nm ty = true ->
+  (allc plain_char id = true /\ no_char ":" id = true /\ py_strip id = id /\ id <> "") /\
+  (match nm with Some s => allc plain_char s = true | None => True end) /\
+  (allc plain_char ty = true /\ no_char ":" ty = true /\ py_strip ty = ty /\ ty <> "").
+Proof.
+  intros id nm ty H. unfold headok_top, textok in H. split_and.
+  repeat match goal with H : String.eqb _ _ = true |- _ => apply String.eqb_eq in H end.
+  repeat match goal with H : negb (String.eqb _ _) = true |- _ => apply negb_true_iff in H; apply String.eqb_neq in H end.
+  repeat match goal with H : plain _ = true |- _ => rewrite plain_allc in H end.
+  split; [|split].
+  - repeat split; assumption.
+  - destruct nm as [s|]; [|exact Logic.I]. split_and.
+    repeat match goal with H : plain _ = true |- _ => rewrite plain_allc in H end. assumption.
+  - repeat split; assumption.
+Qed.
+
+Lemma headok_headok_top : forall id nm ty, headok id nm ty = true -> headok_top id nm ty = true.
+Proof.
+  intros id nm ty H. unfold headok in H. unfold headok_top. split_and.
+  repeat match goal with H : _ = true |- _ => rewrite H end.
+  destruct nm as [s|]; [|reflexivity]. split_and. repeat match goal with H : _ = true |- _ => rewrite H end. reflexivity.
+Qed.
+
+Lemma keepm_qname : forall nm, match nm with Some s => allc plain_char s = true | None => True end -> keepm (qname nm) = name_text nm.
+Proof.
+  intros nm H. destruct nm as [s|]; [|reflexivity]. unfold qname, name_text, dq.
+  rewrite !keepm_app, (keepm_plain _ H). change (keepm (String DQ "")) with "". cbn [append]. apply sapp_nil_r.
+Qed.
+
+Lemma values_header_top_c : forall id nm ty, headok_top id nm ty = true ->
+  values_from_outside (String "b" (String SQ (repr_body SQ (head_text id nm ty) ++ String SQ ""))) = Some (top_head id nm ty).
+Proof.
+  intros id nm ty H. destruct (headok_top_parts _ _ _ H) as [[Hi [Hi1 [Hi2 Hi3]]] [Hn [Ht [Ht1 [Ht2 Ht3]]]]].
+  assert (Hq : allc pqc (qname nm) = true) by (unfold qname, dq; destruct nm as [s|]; cls).
+  assert (Hh : allc pqc (head_text id nm ty) = true) by (unfold head_text; cls).
+  rewrite (repr_pq _ Hh). unfold head_text.
+  replace (String "b" (String SQ ((id ++ ":" ++ qname nm ++ ":" ++ ty ++ " ") ++ String SQ "")))
+    with ((String "b" (String SQ "") ++ id) ++ ":" ++ qname nm ++ ":" ++ (ty ++ String " " (String SQ "")))
+    by (repeat first [rewrite !sapp_assoc | progress cbn [append]]; reflexivity).
+  set (A := String "b" (String SQ "") ++ id). set (T := ty ++ String " " (String SQ "")).
+  assert (HA : allc psq A = true) by (unfold A; cls).
+  assert (HT : allc psq T = true) by (unfold T; cls).
+  assert (HAc : no_char ":" A = true) by (unfold A; nc).
+  assert (HTc : no_char ":" T = true) by (unfold T; nc).
+  rewrite (vfo_head_gen _ A (split_on ":" (name_text nm) ++ [T])%list).
+  - unfold top_head. destruct (strip_fix _ Hi2) as [Hir Hil].
+    assert (E1 : py_strip A = A).
+    { unfold A. cbn [append]. unfold py_strip. rewrite !rstrip_cons_ns, Hir by reflexivity. reflexivity. }
+    rewrite E1. reflexivity.
+  - cls.
+  - cbn [append]. apply nc_mid.
+  - rewrite (keepm_app A), (keepm_app ":"), (keepm_app (qname nm)), (keepm_app ":"), (keepm_psq _ HA), (keepm_psq _ HT), (keepm_qname _ Hn).
+    change (keepm ":") with ":". cbn [append]. rewrite split_on_app, split_on_app, (split_on_none _ A HAc), (split_on_none _ T HTc). reflexivity.
+  - rewrite app_length. cbn [List.length]. pose proof (split_on_nonempty ":" (name_text nm)) as Hne.
+    destruct (split_on ":" (name_text nm)); [congruence | cbn [List.length]; lia].
+Qed.
+Print Assumptions values_header_top_c.
+
+(* a name without colon: the header of values_header_top *)
+Lemma top_head_plain : forall id nm ty, headok id nm ty = true ->
+  top_head id nm ty = [("id", PStr (String "b" (String SQ id))); ("name", PStr (name_text nm)); ("type", PStr (ty ++ " '"))].
+Proof.
+  intros id nm ty H. pose proof (values_header_top_c _ _ _ (headok_headok_top _ _ _ H)) as E.
+  rewrite (values_header_top _ _ _ H) in E. symmetry. exact (f_equal (fun o => match o with Some x => x | None => top_head id nm ty end) E).
+Qed.
